@@ -300,6 +300,58 @@ theorem entered_of (s : St) (f : Nat) (pc : Int) (a : List (Option (Nat × Int))
   subst h1; subst h2; subst h3
   rfl
 
+theorem enteredA_of (s : St) (f : Nat) (pc : Int) (a : List (Option (Nat × Int))) (vid : Nat) (rest : Option String) (nfix : Nat)
+    (vs : List Val) (D dd : List (Option Val)) (h1 : s.curfunc = vid)
+    (h2 : s.pc = 0) (h3 : s.addr = some (f, pc + 1) :: a) (h4 : s.data = argsData rest nfix vs D) :
+    enteredA { s with curfunc := f, pc := pc, addr := a, data := dd } vid rest nfix vs D = s := by
+  unfold enteredA entered
+  cases s
+  simp only at h1 h2 h3 h4
+  subst h1; subst h2; subst h3; subst h4
+  rfl
+
+theorem arOk_congr {r₁ r₂ : Option String} {n₁ n₂ n : Nat} (h1 : r₁.isSome = r₂.isSome) (h2 : n₁ = n₂) :
+    arOk r₁ n₁ n ↔ arOk r₂ n₂ n := by
+  subst h2
+  cases r₁ <;> cases r₂ <;> simp [arOk] at h1 ⊢
+
+/-- `PrepareCall` on the tail path: the variadic tail of the running function is packed -/
+theorem exec_prepareCall_clo (f : Nat) (x : String) (rest : Option String) (nfix : Nat) (vs : List Val) (D : List (Option Val))
+    (s : St) (hd : s.data = vs.reverse.map some ++ D) (hu : (fnOf s s.curfunc).user = false)
+    (hv : (fnOf s s.curfunc).varargs = rest.isSome) (hn : (fnOf s s.curfunc).nargs = nfix) (har : arOk rest nfix vs.length) :
+    (exec (f + 1) (.prepareCall x vs.length)).run s = (.ok (), s.jmp (s.pc + 1) (argsData rest nfix vs D)) := by
+  cases rest with
+  | none =>
+    rw [TailVM.exec_prepareCall_fixed f s x _ hv]
+    unfold argsData bvals
+    rw [← hd]; rfl
+  | some r =>
+    have hv' : (fnOf s s.curfunc).varargs = true := hv
+    have har' : nfix ≤ vs.length := har
+    rw [exec]
+    simp only [run_bind, run_get, hu, hv', Bool.not_false, Bool.and_self, if_true, hn]
+    unfold wrangleOptargs
+    have hnlt2 : ¬ vs.length < nfix := by omega
+    simp only [run_ite, if_neg hnlt2]
+    by_cases hgt : vs.length > nfix
+    · simp only [if_pos hgt, run_bind]
+      have hsplit : s.data = (vs.drop nfix).reverse.map some ++ ((vs.take nfix).reverse.map some ++ D) := by
+        rw [hd, ← List.append_assoc, ← List.map_append, ← List.reverse_append, List.take_append_drop]
+      have hlen' : vs.length - nfix = (vs.drop nfix).length := by simp
+      rw [hlen', run_popN _ _ s hsplit]
+      simp only [run_pushData, run_incPc]
+      unfold argsData bvals
+      simp
+      rfl
+    · have heq : vs.length = nfix := by omega
+      simp only [if_neg hgt, run_pushData, run_bind, run_incPc]
+      have h1 : vs.drop nfix = [] := by rw [← heq]; simp
+      have h2 : vs.take nfix = vs := by rw [← heq]; simp
+      unfold argsData bvals
+      rw [h1, h2]
+      have e : (vs ++ [mkList []]).reverse.map some ++ D = some (mkList []) :: (vs.reverse.map some ++ D) := by simp
+      rw [e, ← hd]; rfl
+
 /-! ## The outcome "the activation returned" -/
 
 /-- what `FClaimU` says of a whole call of the activation entered from `s₁`, seen from a state inside it -/
@@ -431,8 +483,8 @@ theorem InAct.pushScope {m₁ : Nat → Nat} {s₁ : St} {rs₁ : Ref.St} {env v
     h.mext, h.rext.trans ⟨FramesExt.newFrame rs cenv, fun _ _ hc => hc⟩⟩
 
 /-- what the generator knows about the running function survives compiling -/
-theorem KnownOk.keep {c c' : Ctx} {gs gs' : GS} {ps : List String} (h : KnownOk c gs ps) (hk : KeepFns gs gs')
-    (hf : c'.funcname = c.funcname) (hkn : c'.known = c.known) : KnownOk c' gs' ps := by
+theorem KnownOk.keep {c c' : Ctx} {gs gs' : GS} {ps : List String} {rest : Option String} (h : KnownOk c gs ps rest)
+    (hk : KeepFns gs gs') (hf : c'.funcname = c.funcname) (hkn : c'.known = c.known) : KnownOk c' gs' ps rest := by
   intro hne
   rw [hf] at hne ⊢
   rcases h hne with h1 | ⟨t, h1, h2, h3, h4, h5⟩
@@ -506,10 +558,11 @@ theorem simT_selfcall {k : Nat} (hV : TClaimV (k + 1)) (hA : FClaimA (k + 1)) (h
     (hself : (h != self) = true ∨ FfList false self args = true)
     (isFn : Nat → Bool) (c : Ctx) (gs : GS) (r : (List Instr × Bool) × GS)
     (hc : (compile isFn c (.call (.sym h) args)).run gs = .ok r) (hfn : FnameOk self c)
-    {ps : List String} (hkn : KnownOk c gs ps) (hps : ∀ p ∈ ps, okParam p = true)
+    {ps : List String} {rest : Option String} (hkn : KnownOk c gs ps rest) (hps : ∀ p ∈ ps ++ rest.toList, okParam p = true)
     {m₁ : Nat → Nat} {s₁ : St} {rs₁ : Ref.St} {env vid : Nat} {D : List (Option Val)} {m : Nat → Nat} {s : St} {rs : Ref.St}
     {cenv : Nat} {pre post : List Instr}
     (hact : InAct m₁ s₁ rs₁ env vid D c.scopes m s rs) (hnargs : (fnOf s₁ vid).nargs = ps.length)
+    (hva : (fnOf s₁ vid).varargs = rest.isSome)
     (hrel : RelF m s rs cenv) (hseg : Seg s pre r.1.1 post) :
     SimT r.1.1 s₁ env D m s rs cenv (Ref.eval (k + 2) (.call (.sym h) args) cenv rs) := by
   have hok : okSym h = true := okSym_of_okHead hhead
@@ -537,11 +590,18 @@ theorem simT_selfcall {k : Nat} (hV : TClaimV (k + 1)) (hA : FClaimA (k + 1)) (h
   have hkf : knownFn c gs h = some (gs.fns.getD t {}) := by
     unfold knownFn; rw [hhc, hlook]
     simp [List.getD_eq_getElem?_getD, List.getElem?_eq_getElem htlt]
-  have harity : args.length = ps.length := by
+  have harity : arOk rest ps.length args.length := by
     have := hcond.2
     rw [hkf] at this
-    simp only [arityOk, hvar, Bool.false_eq_true, if_false, beq_iff_eq] at this
-    rw [this, hna]
+    cases rest with
+    | none =>
+      simp only [arityOk, hvar, Option.isSome_none, Bool.false_eq_true, if_false, beq_iff_eq] at this
+      show args.length = ps.length
+      rw [this, hna]
+    | some r =>
+      simp only [arityOk, hvar, Option.isSome_some, if_true, decide_eq_true_eq] at this
+      show ps.length ≤ args.length
+      rw [← hna]; exact this
   rw [hkf] at hc
   have hfn' : FnameOk self { c with tail := false } := hfn
   cases hcc : (compileCallArgs isFn { c with tail := false } (some (gs.fns.getD t {})) 0 args).run gs with
@@ -560,6 +620,9 @@ theorem simT_selfcall {k : Nat} (hV : TClaimV (k + 1)) (hA : FClaimA (k + 1)) (h
     hact.good.mono (FnsKeep.of_eq hact.fnsLen hact.fns hmain1 ⟨hact.loopsLen, hact.loops⟩) hact.scLen hact.flags hact.rext
       (hact.mext vid hact.good.lt)
   obtain ⟨c0, hc1, hrest, hnd, hokp, hbody, hparams, hnargs0, hvar0, huser0, _⟩ := hgs.clo
+  have hfo_s : fnOf s vid = fnOf s₁ vid := hact.fns vid hact.good.lt
+  have hn0 : c0.ps.length = ps.length := by rw [← hnargs0, hfo_s, hnargs]
+  have hv0 : c0.rest.isSome = rest.isSome := by rw [← hvar0, hfo_s, hva]
   have hin := hseg.inFn
   have hlen : (tailCode h c.scopes args code).length = code.length + c.scopes + 5 := by
     simp [tailCode]; omega
@@ -598,29 +661,39 @@ theorem simT_selfcall {k : Nat} (hV : TClaimV (k + 1)) (hA : FClaimA (k + 1)) (h
       have hfo2 : ∀ id, id < s₁.fns.length → fnOf s2 id = fnOf s₁ id := fun id hid =>
         (hfr02.fns id (Nat.lt_of_lt_of_le hid hact.fnsLen)).trans (hact.fns id hid)
       have hfl2 : s₁.fns.length ≤ s2.fns.length := Nat.le_trans hact.fnsLen hfr02.fnsLen
-      obtain ⟨c1, _, _, _, _, _, _, _, hvar1, huser1, _⟩ := hact.good.clo
+      have hlen12 : vs.length = args.length := by
+        have h3 := ref_evalList_length _ _ _ _ _ _ h1
+        rw [hvs2, List.length_map] at h3
+        exact h3
+      have har0 : arOk c0.rest c0.ps.length vs.length := by
+        rw [hlen12]; exact (arOk_congr hv0 hn0).mpr harity
+      have hd2' : s2.data = vs.reverse.map some ++ D := by rw [hd2, St.jmp_data, hact.data]
       -- prepareCall
       have a3 : At s2 (pre ++ [.tailGuard h (code.length + c.scopes + 4)] ++ code) (.prepareCall h args.length)
           (List.replicate (c.scopes + 1) Instr.removeScope ++ [.goto 0, .callExpr (.sym h) args] ++ post) :=
         hin2.at (by simp [tailCode]) (by rw [hpc2']; simp; omega)
-      have r3 : ReachX s2 (s2.jmp (s2.pc + 1) s2.data) :=
+      have hfo2v : fnOf s2 s2.curfunc = fnOf s vid := by
+        rw [hcur2]; exact hfr02.fns vid (Nat.lt_of_lt_of_le hact.good.lt hact.fnsLen)
+      generalize hAD : argsData c0.rest c0.ps.length vs D = AD
+      have r3 : ReachX s2 (s2.jmp (s2.pc + 1) AD) :=
         (Reach.step a3 (fun f => by
-          rw [TailVM.exec_prepareCall_fixed f s2 h _ (by rw [hcur2, hfo2 vid hact.good.lt]; exact hvar1)]; rfl)).toX
+          rw [← hlen12, exec_prepareCall_clo f h c0.rest c0.ps.length vs D s2 hd2' (by rw [hfo2v]; exact huser0)
+            (by rw [hfo2v]; exact hvar0) (by rw [hfo2v]; exact hnargs0) har0, hAD])).toX
       -- the scopes of the activation
       obtain ⟨extra, hlin, hel⟩ := hact.lin
-      have hlin2 : (s2.jmp (s2.pc + 1) s2.data).linear = (extra ++ [some s₁.scopes.length]) ++ s₁.linear := by
+      have hlin2 : (s2.jmp (s2.pc + 1) AD).linear = (extra ++ [some s₁.scopes.length]) ++ s₁.linear := by
         show s2.linear = _; rw [hfr02.linear, hlin]; simp
       have hxl : (extra ++ [some s₁.scopes.length]).length = c.scopes + 1 := by simp [hel]
-      have r4 := reach_removeScopes (extra ++ [some s₁.scopes.length]) (s2.jmp (s2.pc + 1) s2.data)
+      have r4 := reach_removeScopes (extra ++ [some s₁.scopes.length]) (s2.jmp (s2.pc + 1) AD)
         (pre ++ [.tailGuard h (code.length + c.scopes + 4)] ++ code ++ [.prepareCall h args.length])
         ([.goto 0, .callExpr (.sym h) args] ++ post) s₁.linear
         (by show (fnOf s2 s2.curfunc).user = false; exact hin2.user)
         (by show (fnOf s2 s2.curfunc).code = _; rw [hin2.code, hxl]; simp [tailCode])
         (by rw [St.jmp_pc, hpc2']; simp; omega) hlin2
       rw [hxl] at r4
-      have r4' : ReachX (s2.jmp (s2.pc + 1) s2.data) (dropped (s2.jmp (s2.pc + 1) s2.data) (c.scopes + 1) s₁.linear) := r4
+      have r4' : ReachX (s2.jmp (s2.pc + 1) AD) (dropped (s2.jmp (s2.pc + 1) AD) (c.scopes + 1) s₁.linear) := r4
       clear r4
-      generalize hs4 : dropped (s2.jmp (s2.pc + 1) s2.data) (c.scopes + 1) s₁.linear = s4 at r4'
+      generalize hs4 : dropped (s2.jmp (s2.pc + 1) AD) (c.scopes + 1) s₁.linear = s4 at r4'
       have hin4 : InFn s4 (pre ++ tailCode h c.scopes args code ++ post) := by subst hs4; exact hin2.of_fn rfl
       have hpc4 : s4.pc = ((pre.length + code.length + c.scopes + 3 : Nat) : Int) := by
         subst hs4; show s2.pc + 1 + ((c.scopes + 1 : Nat) : Int) = _; rw [hpc2']; push_cast; omega
@@ -634,14 +707,15 @@ theorem simT_selfcall {k : Nat} (hV : TClaimV (k + 1)) (hA : FClaimA (k + 1)) (h
       have hpc5 : s5.pc = 0 := by subst hs5; rfl
       have haddr5 : s5.addr = some (s₁.curfunc, s₁.pc + 1) :: s₁.addr := by
         subst hs5; subst hs4; show s2.addr = _; rw [hfr02.addr]; exact hact.addr
-      have hent := entered_of s5 s₁.curfunc s₁.pc s₁.addr vid hcur5 hpc5 haddr5
       have hsc5 : s5.scopes = s2.scopes := by subst hs5; subst hs4; rfl
       have hfns5 : s5.fns = s2.fns := by subst hs5; subst hs4; rfl
       have hheap5 : s5.heap = s2.heap := by subst hs5; subst hs4; rfl
       have htr5 : s5.trace = s2.trace := by subst hs5; subst hs4; rfl
       have hlin5 : s5.linear = s₁.linear := by subst hs5; subst hs4; rfl
-      have hd5 : s5.data = vs.reverse.map some ++ D := by
-        subst hs5; subst hs4; show s2.data = _; rw [hd2, St.jmp_data, hact.data]
+      have hd5 : s5.data = argsData c0.rest c0.ps.length vs D := by
+        subst hs5; subst hs4; exact hAD.symm
+      have hent := enteredA_of s5 s₁.curfunc s₁.pc s₁.addr vid c0.rest c0.ps.length vs D (vs.reverse.map some ++ D)
+        hcur5 hpc5 haddr5 hd5
       have hsusp5 : s5.suspended = s₁.suspended := by subst hs5; subst hs4; show s2.suspended = _; rw [hfr02.susp]; exact hact.susp
       have hloops5 : s5.loops = s2.loops := by subst hs5; subst hs4; rfl
       have hflags2 : ∀ i, i < s₁.scopes.length → isFnScope s2 i = isFnScope s₁ i := fun i hi =>
@@ -652,7 +726,8 @@ theorem simT_selfcall {k : Nat} (hV : TClaimV (k + 1)) (hA : FClaimA (k + 1)) (h
         (hfr02.loops id (Nat.lt_of_lt_of_le hid hact.loopsLen)).trans (hact.loops id hid)⟩
       have hm12 : m2 vid = m₁ vid := (hm2 vid (by show vid < s.fns.length; exact Nat.lt_of_lt_of_le hact.good.lt hact.fnsLen)).trans
         (hact.mext vid hact.good.lt)
-      generalize hs1' : ({ s5 with curfunc := s₁.curfunc, pc := s₁.pc, addr := s₁.addr } : St) = s₁' at hent
+      generalize hs1' : ({ s5 with curfunc := s₁.curfunc, pc := s₁.pc, addr := s₁.addr, data := vs.reverse.map some ++ D } : St)
+        = s₁' at hent
       have hfo1' : ∀ id, fnOf s₁' id = fnOf s2 id := fun id => by subst hs1'; unfold fnOf; rw [hfns5]
       have hflags1' : ∀ i, isFnScope s₁' i = isFnScope s2 i := fun i => by
         subst hs1'; unfold isFnScope scopeOf; rw [hsc5]
@@ -664,15 +739,12 @@ theorem simT_selfcall {k : Nat} (hV : TClaimV (k + 1)) (hA : FClaimA (k + 1)) (h
         (fun id hid => (hfo1' id).trans (hfo2 id hid)) hmain1 (by subst hs1'; unfold LoopsExt; rw [hloops5]; exact hle12)
       have good1' : GoodFn m2 s₁' rs2 vid :=
         hact.good.mono hk1' (by subst hs1'; rw [hsc5]; exact hscl2) (fun i hi => (hflags1' i).trans (hflags2 i hi)) hext12 hm12
-      have hvlen : vs.length = (fnOf s₁' vid).nargs := by
-        have h3 := ref_evalList_length _ _ _ _ _ _ h1
-        rw [hvs2, List.length_map] at h3
-        rw [hfo1' vid, hfo2 vid hact.good.lt, hnargs, h3, harity]
       have hvok : ∀ v ∈ vs, VOk m2 s₁' rs2 v := fun v hv =>
         ValIn.mono (hcl2 v hv) (fun id hgd => hgd.mono (FnsKeep.of_fns_eq (by subst hs1'; exact hfns5)
             (LoopsExt.of_eq (by subst hs1'; exact hloops5)))
           (by subst hs1'; rw [hsc5]; exact Nat.le_refl _) (fun i _ => hflags1' i) (RExt.refl _) rfl)
-      have hres := hU m2 s₁' rs2 env vid vs D rel1' good1' (by subst hs1'; exact hd5) hvok hvlen
+      have hres := hU m2 s₁' rs2 env vid c0 vs D rel1' good1'
+        (by rw [hm12, ← hact.mext vid hact.good.lt]; exact ext2.2 _ _ hc1) (by subst hs1'; rfl) hvok har0
       rw [hent, hm12, ← hact.mext vid hact.good.lt, ← hvs2] at hres
       have hreach5 : ReachX s s5 := (((r0.trans r2).trans r3).trans r4').trans r5
       have hfr11' : FrameF s₁ s₁' :=
@@ -739,22 +811,25 @@ theorem simF_stmt {n : Nat} (hFE : FClaimE n) (hXE : XClaimE n) {ex : Bool} {sel
 
 def TClaimE (n : Nat) : Prop :=
   ∀ ex self e, Fz ex self e = true → ∀ isFn c gs r, (compile isFn c e).run gs = .ok r → FnameOk self c →
-  (ex = true → gs.loopstack = []) → ∀ ps, KnownOk c gs ps → (∀ p ∈ ps, okParam p = true) →
+  (ex = true → gs.loopstack = []) → ∀ ps rest, KnownOk c gs ps rest → (∀ p ∈ ps ++ rest.toList, okParam p = true) →
   ∀ m₁ s₁ rs₁ env vid D m s rs cenv pre post, InAct m₁ s₁ rs₁ env vid D c.scopes m s rs → (fnOf s₁ vid).nargs = ps.length →
+    (fnOf s₁ vid).varargs = rest.isSome →
     RelF m s rs cenv → GenOk gs r.2 s → LsOut pre gs.loops.length r.2.loops.length → Seg s pre r.1.1 post →
     SimT r.1.1 s₁ env D m s rs cenv (Ref.eval n e cenv rs)
 
 def TClaimB (n : Nat) : Prop :=
   ∀ ex self es, es ≠ [] → FzList ex self es = true → ∀ isFn c gs r, (compileBegin isFn c es).run gs = .ok r → FnameOk self c →
-  (ex = true → gs.loopstack = []) → ∀ ps, KnownOk c gs ps → (∀ p ∈ ps, okParam p = true) →
+  (ex = true → gs.loopstack = []) → ∀ ps rest, KnownOk c gs ps rest → (∀ p ∈ ps ++ rest.toList, okParam p = true) →
   ∀ m₁ s₁ rs₁ env vid D m s rs cenv pre post, InAct m₁ s₁ rs₁ env vid D c.scopes m s rs → (fnOf s₁ vid).nargs = ps.length →
+    (fnOf s₁ vid).varargs = rest.isSome →
     RelF m s rs cenv → GenOk gs r.2 s → LsOut pre gs.loops.length r.2.loops.length → Seg s pre r.1.1 post →
     SimT r.1.1 s₁ env D m s rs cenv (Ref.evalBegin n es cenv rs)
 
 def TClaimN (n : Nat) : Prop :=
   ∀ ex self es, es ≠ [] → FzList ex self es = true → ∀ isFn c oldtail gs r, (compileNewScope isFn c oldtail es).run gs = .ok r →
-  FnameOk self c → (ex = true → gs.loopstack = []) → ∀ ps, KnownOk c gs ps → (∀ p ∈ ps, okParam p = true) →
+  FnameOk self c → (ex = true → gs.loopstack = []) → ∀ ps rest, KnownOk c gs ps rest → (∀ p ∈ ps ++ rest.toList, okParam p = true) →
   ∀ m₁ s₁ rs₁ env vid D m s rs cenv pre post, InAct m₁ s₁ rs₁ env vid D c.scopes m s rs → (fnOf s₁ vid).nargs = ps.length →
+    (fnOf s₁ vid).varargs = rest.isSome →
     RelF m s rs cenv → GenOk gs r.2 s → LsOut pre gs.loops.length r.2.loops.length → Seg s pre r.1.1 post →
     SimT r.1.1 s₁ env D m s rs cenv (Ref.evalBegin n es cenv rs)
 
@@ -762,21 +837,22 @@ def TClaimC (n : Nat) : Prop :=
   ∀ ex self arms d, FzArms ex self arms = true → Fz ex self d = true → ∀ isFn c gs r gs0 rd,
     (compileArms isFn c arms).run gs = .ok r → (compile isFn c d).run gs0 = .ok rd → FnameOk self c →
   (ex = true → gs.loopstack = []) → (ex = true → gs0.loopstack = []) →
-  ∀ ps, KnownOk c gs ps → KnownOk c gs0 ps → (∀ p ∈ ps, okParam p = true) →
+  ∀ ps rest, KnownOk c gs ps rest → KnownOk c gs0 ps rest → (∀ p ∈ ps ++ rest.toList, okParam p = true) →
   ∀ m₁ s₁ rs₁ env vid D m s rs cenv pre post, InAct m₁ s₁ rs₁ env vid D c.scopes m s rs → (fnOf s₁ vid).nargs = ps.length →
+    (fnOf s₁ vid).varargs = rest.isSome →
     RelF m s rs cenv → GenOk gs r.2 s → GenOk gs0 rd.2 s →
     LsOut pre gs.loops.length r.2.loops.length → LsOut pre gs0.loops.length rd.2.loops.length →
     rd.2.loops.length ≤ gs.loops.length → Seg s pre (asmCond r.1 rd.1.1) post →
     SimT (asmCond r.1 rd.1.1) s₁ env D m s rs cenv (Ref.evalCond n arms d cenv rs)
 
 theorem tclaimB_succ {n : Nat} (hFE : FClaimE n) (hXE : XClaimE n) (hE : TClaimE n) (hB : TClaimB n) : TClaimB (n + 1) := by
-  intro ex self es hne hes isFn c gs r hc hfn hex ps hkn hps m₁ s₁ rs₁ env vid D m s rs cenv pre post hact hna hrel hgen hlo hseg
+  intro ex self es hne hes isFn c gs r hc hfn hex ps rest hkn hps m₁ s₁ rs₁ env vid D m s rs cenv pre post hact hna hva hrel hgen hlo hseg
   match es, hne with
   | [e], _ =>
     rw [FzList] at hes
     rw [compileBegin] at hc
     rw [Ref.evalBegin]
-    exact hE ex self e hes isFn c gs r hc hfn hex ps hkn hps m₁ s₁ rs₁ env vid D m s rs cenv pre post hact hna hrel hgen hlo hseg
+    exact hE ex self e hes isFn c gs r hc hfn hex ps rest hkn hps m₁ s₁ rs₁ env vid D m s rs cenv pre post hact hna hva hrel hgen hlo hseg
   | e :: e' :: es', _ =>
     rw [FzList] at hes
     simp only [Bool.and_eq_true] at hes
@@ -798,8 +874,8 @@ theorem tclaimB_succ {n : Nat} (hFE : FClaimE n) (hXE : XClaimE n) (hE : TClaimE
           obtain ⟨s1, m1, w1, r1, l1, hv1, rel1, hm1, ext1, fr1, hcl1⟩ := ih
           obtain ⟨r2, m2⟩ := glue_pop hseg l1
           have hfr := fr1.trans (FrameF.jmp s1 (s1.pc + 1) s.data)
-          have ih2 := hB ex self (e' :: es') (by simp) hes.2 isFn c gs1 (rb, gs2) hb hfn hex1 ps (hkn.keep tot1.1 rfl rfl) hps
-            m₁ s₁ rs₁ env vid D m1 (s1.jmp (s1.pc + 1) s.data) rs1 cenv _ post (hact.moved m2 hfr hm1 ext1) hna (rel1.jmp _ _)
+          have ih2 := hB ex self (e' :: es') (by simp) hes.2 isFn c gs1 (rb, gs2) hb hfn hex1 ps rest (hkn.keep tot1.1 rfl rfl) hps
+            m₁ s₁ rs₁ env vid D m1 (s1.jmp (s1.pc + 1) s.data) rs1 cenv _ post (hact.moved m2 hfr hm1 ext1) hna hva (rel1.jmp _ _)
             ((hgen.rest tot1.1).frame hfr.toFrame)
             ((hlo.mono tot1.2.1 (Nat.le_refl _)).app ((tot1.2.2.below (Nat.le_refl _)).app (lsOut_pop _ _)))
             (hseg.moved m2 (c₁ := ra.1 ++ [.pop]) (c₂ := rb.1) (post' := post) rfl (by simp))
@@ -812,15 +888,15 @@ theorem tclaimB_succ {n : Nat} (hFE : FClaimE n) (hXE : XClaimE n) (hE : TClaimE
     · intro hh; cases hh
 
 theorem tclaimN_succ {n : Nat} (hFE : FClaimE n) (hXE : XClaimE n) (hE : TClaimE n) (hN : TClaimN n) : TClaimN (n + 1) := by
-  intro ex self es hne hes isFn c oldtail gs r hc hfn hex ps hkn hps m₁ s₁ rs₁ env vid D m s rs cenv pre post hact hna hrel hgen
+  intro ex self es hne hes isFn c oldtail gs r hc hfn hex ps rest hkn hps m₁ s₁ rs₁ env vid D m s rs cenv pre post hact hna hva hrel hgen
     hlo hseg
   match es, hne with
   | [e], _ =>
     rw [FzList] at hes
     rw [compileNewScope] at hc
     rw [Ref.evalBegin]
-    exact hE ex self e hes isFn _ gs r hc hfn hex ps (hkn.keep (KeepFns.refl _) rfl rfl) hps m₁ s₁ rs₁ env vid D m s rs cenv
-      pre post hact hna hrel hgen hlo hseg
+    exact hE ex self e hes isFn _ gs r hc hfn hex ps rest (hkn.keep (KeepFns.refl _) rfl rfl) hps m₁ s₁ rs₁ env vid D m s rs cenv
+      pre post hact hna hva hrel hgen hlo hseg
   | e :: e' :: es', _ =>
     rw [FzList] at hes
     simp only [Bool.and_eq_true] at hes
@@ -841,8 +917,8 @@ theorem tclaimN_succ {n : Nat} (hFE : FClaimE n) (hXE : XClaimE n) (hE : TClaimE
           obtain ⟨s1, m1, w1, r1, l1, hv1, rel1, hm1, ext1, fr1, hcl1⟩ := ih
           obtain ⟨r2, m2⟩ := glue_pop hseg l1
           have hfr := fr1.trans (FrameF.jmp s1 (s1.pc + 1) s.data)
-          have ih2 := hN ex self (e' :: es') (by simp) hes.2 isFn c oldtail gs1 (rb, gs2) hb hfn hex1 ps (hkn.keep tot1.1 rfl rfl)
-            hps m₁ s₁ rs₁ env vid D m1 (s1.jmp (s1.pc + 1) s.data) rs1 cenv _ post (hact.moved m2 hfr hm1 ext1) hna
+          have ih2 := hN ex self (e' :: es') (by simp) hes.2 isFn c oldtail gs1 (rb, gs2) hb hfn hex1 ps rest (hkn.keep tot1.1 rfl rfl)
+            hps m₁ s₁ rs₁ env vid D m1 (s1.jmp (s1.pc + 1) s.data) rs1 cenv _ post (hact.moved m2 hfr hm1 ext1) hna hva
             (rel1.jmp _ _) ((hgen.rest tot1.1).frame hfr.toFrame)
             ((hlo.mono tot1.2.1 (Nat.le_refl _)).app ((tot1.2.2.below (Nat.le_refl _)).app (lsOut_pop _ _)))
             (hseg.moved m2 (c₁ := ra.1 ++ [.pop]) (c₂ := rb.1) (post' := post) rfl (by simp))
@@ -855,21 +931,21 @@ theorem tclaimN_succ {n : Nat} (hFE : FClaimE n) (hXE : XClaimE n) (hE : TClaimE
     · intro hh; cases hh
 
 theorem tclaimC_succ {n : Nat} (hFE : FClaimE n) (hE : TClaimE n) (hC : TClaimC n) : TClaimC (n + 1) := by
-  intro ex self arms d harms hd isFn c gs r gs0 rd hc hcd hfn hex hex0 ps hkn hkn0 hps m₁ s₁ rs₁ env vid D m s rs cenv pre post
-    hact hna hrel hgen hgend hlo hlod hdl hseg
+  intro ex self arms d harms hd isFn c gs r gs0 rd hc hcd hfn hex hex0 ps rest hkn hkn0 hps m₁ s₁ rs₁ env vid D m s rs cenv pre post
+    hact hna hva hrel hgen hgend hlo hlod hdl hseg
   match arms with
   | [] =>
     rw [compileArms] at hc; simp only [g_pure_ok] at hc; subst hc
     rw [Ref.evalCond]
     simp only [asmCond] at hseg ⊢
-    exact hE ex self d hd isFn c gs0 rd hcd hfn hex0 ps hkn0 hps m₁ s₁ rs₁ env vid D m s rs cenv pre post hact hna hrel hgend
+    exact hE ex self d hd isFn c gs0 rd hcd hfn hex0 ps rest hkn0 hps m₁ s₁ rs₁ env vid D m s rs cenv pre post hact hna hva hrel hgend
       hlod hseg
   | (p, b) :: arms' =>
     rw [FzArms] at harms
     simp only [Bool.and_eq_true] at harms
     rw [compileArms] at hc
     simp only [g_bind_ok, g_pure_ok] at hc
-    obtain ⟨rest, gs1, hrest, rp, gs2, hp, rb, gs3, hb, rfl⟩ := hc
+    obtain ⟨restA, gs1, hrest, rp, gs2, hp, rb, gs3, hb, rfl⟩ := hc
     have hfn' : FnameOk self { c with tail := false } := hfn
     have totr := compileArms_tot_Fz harms.2 hfn hex hrest
     have totp := compile_tot_Ff harms.1.1 hfn' hp
@@ -882,8 +958,8 @@ theorem tclaimC_succ {n : Nat} (hFE : FClaimE n) (hE : TClaimE n) (hC : TClaimC 
     simp only [asmCond] at hseg hgen hlo ⊢
     have ih := hFE true self p harms.1.1 isFn _ gs1 (rp, gs2) hp hfn' m s rs cenv pre _ hrel
       (fun _ => (hgen.rest totr.1).first totb.1) (hseg.refocus (c' := rp.1)
-      (post' := [.branch false (rb.1.length + 2)] ++ rb.1 ++ [.jump ((asmCond rest rd.1.1).length + 1)]
-        ++ asmCond rest rd.1.1 ++ post) (by simp))
+      (post' := [.branch false (rb.1.length + 2)] ++ rb.1 ++ [.jump ((asmCond restA rd.1.1).length + 1)]
+        ++ asmCond restA rd.1.1 ++ post) (by simp))
     cases h1 : Ref.eval n p cenv rs with
     | ok v1 rs1 =>
       rw [h1] at ih
@@ -894,33 +970,33 @@ theorem tclaimC_succ {n : Nat} (hFE : FClaimE n) (hE : TClaimE n) (hC : TClaimC 
       · rw [htr, if_pos ht]
         obtain ⟨r2, m2⟩ := glue_brn_fall hseg l1 ht
         have hfr := fr1.trans (FrameF.jmp s1 (s1.pc + 1) s.data)
-        have ih2 := hE ex self b harms.1.2 isFn c gs2 (rb, gs3) hb hfn hex2 ps (hkn.keep (totr.1.trans totp.1) rfl rfl) hps
-          m₁ s₁ rs₁ env vid D m1 (s1.jmp (s1.pc + 1) s.data) rs1 cenv _ _ (hact.moved m2 hfr hm1 ext1) hna (rel1.jmp _ _)
+        have ih2 := hE ex self b harms.1.2 isFn c gs2 (rb, gs3) hb hfn hex2 ps rest (hkn.keep (totr.1.trans totp.1) rfl rfl) hps
+          m₁ s₁ rs₁ env vid D m1 (s1.jmp (s1.pc + 1) s.data) rs1 cenv _ _ (hact.moved m2 hfr hm1 ext1) hna hva (rel1.jmp _ _)
           ((hgen.rest (totr.1.trans totp.1)).frame hfr.toFrame)
           ((hlo.mono (Nat.le_trans l01 l12) (Nat.le_refl _)).app
             ((totp.2.2.below (Nat.le_refl _)).app (lsOut_one (.branch false (rb.1.length + 2)) _ _)))
           (hseg.moved m2 (c₁ := rp.1 ++ [.branch false (rb.1.length + 2)]) (c₂ := rb.1)
-            (post' := [.jump ((asmCond rest rd.1.1).length + 1)] ++ asmCond rest rd.1.1 ++ post)
+            (post' := [.jump ((asmCond restA rd.1.1).length + 1)] ++ asmCond restA rd.1.1 ++ post)
             (by simp) (by simp))
         exact SimT.cond_exit hseg (r1.trans r2.toX) m2 hm1 ext1 hfr ih2
       · rw [htr, if_neg ht]
         obtain ⟨r2, m2⟩ := glue_brn_taken hseg l1 (by simpa using ht)
         have hfr := fr1.trans (FrameF.jmp s1 (s1.pc + ((rb.1.length : Int) + 2)) s.data)
         have hk13 := totp.1.trans totb.1
-        have ih2 := hC ex self arms' d harms.2 hd isFn c gs (rest, gs1) gs0 rd hrest hcd hfn hex hex0 ps hkn hkn0 hps
+        have ih2 := hC ex self arms' d harms.2 hd isFn c gs (restA, gs1) gs0 rd hrest hcd hfn hex hex0 ps rest hkn hkn0 hps
           m₁ s₁ rs₁ env vid D m1 (s1.jmp (s1.pc + ((rb.1.length : Int) + 2)) s.data) rs1 cenv _ post
-          (hact.moved m2 hfr hm1 ext1) hna (rel1.jmp _ _)
+          (hact.moved m2 hfr hm1 ext1) hna hva (rel1.jmp _ _)
           ((hgen.first hk13).frame hfr.toFrame) (hgend.frame hfr.toFrame)
           ((hlo.mono (Nat.le_refl _) (Nat.le_trans l12 l23)).app
             ((((totp.2.2.above (Nat.le_refl _)).app (lsOut_one (.branch false (rb.1.length + 2)) _ _)).app
-              (totb.2.2.above l12)).app (lsOut_one (.jump ((asmCond rest rd.1.1).length + 1)) _ _)))
+              (totb.2.2.above l12)).app (lsOut_one (.jump ((asmCond restA rd.1.1).length + 1)) _ _)))
           (hlod.app
             ((((totp.2.2.above (Nat.le_trans hdl l01)).app (lsOut_one (.branch false (rb.1.length + 2)) _ _)).app
               (totb.2.2.above (Nat.le_trans hdl (Nat.le_trans l01 l12)))).app
-              (lsOut_one (.jump ((asmCond rest rd.1.1).length + 1)) _ _)))
+              (lsOut_one (.jump ((asmCond restA rd.1.1).length + 1)) _ _)))
           hdl
           (hseg.moved m2 (c₁ := rp.1 ++ [.branch false (rb.1.length + 2)] ++ rb.1
-              ++ [.jump ((asmCond rest rd.1.1).length + 1)]) (c₂ := asmCond rest rd.1.1) (post' := post)
+              ++ [.jump ((asmCond restA rd.1.1).length + 1)]) (c₂ := asmCond restA rd.1.1) (post' := post)
             (by simp) (by lenarith))
         exact SimT.seq (r1.trans r2.toX) m2 hm1 ext1 hfr ih2 (by lenarith)
     | err rs1 => rw [h1] at ih; exact ih
@@ -931,7 +1007,7 @@ theorem tclaimC_succ {n : Nat} (hFE : FClaimE n) (hE : TClaimE n) (hC : TClaimC 
 theorem tclaimE_succ {n : Nat} (hFE1 : FClaimE (n + 1)) (hXE1 : XClaimE (n + 1)) (hV : TClaimV n) (hA : FClaimA n)
     (hU : FClaimU n) (hL : FClaimL n) (hP : FClaimP n) (hB : TClaimB n) (hC : TClaimC n) (hN : TClaimN n) :
     TClaimE (n + 1) := by
-  intro ex self e he isFn c gs r hc hfn hex ps hkn hps m₁ s₁ rs₁ env vid D m s rs cenv pre post hact hna hrel hgen hlo hseg
+  intro ex self e he isFn c gs r hc hfn hex ps rest hkn hps m₁ s₁ rs₁ env vid D m s rs cenv pre post hact hna hva hrel hgen hlo hseg
   have hff : Ff true self e = true → SimT r.1.1 s₁ env D m s rs cenv (Ref.eval (n + 1) e cenv rs) := fun h =>
     (hFE1 true self e h isFn c gs r hc hfn m s rs cenv pre post hrel (fun _ => hgen) hseg).toT
   cases e with
@@ -943,7 +1019,7 @@ theorem tclaimE_succ {n : Nat} (hFE1 : FClaimE (n + 1)) (hXE1 : XClaimE (n + 1))
       cases n with
       | zero => rw [Ref.eval, Ref.eval]; trivial
       | succ k =>
-        exact simT_selfcall hV hA hU he.1.1.1 he.1.1.2 he.1.2 he.2 isFn c gs r hc hfn hkn hps hact hna hrel hseg
+        exact simT_selfcall hV hA hU he.1.1.1 he.1.1.2 he.1.2 he.2 isFn c gs r hc hfn hkn hps hact hna hva hrel hseg
     | _ => simp [Fz] at he
   | begin_ es =>
     rw [Fz] at he
@@ -952,8 +1028,8 @@ theorem tclaimE_succ {n : Nat} (hFE1 : FClaimE (n + 1)) (hXE1 : XClaimE (n + 1))
     | cons e0 es0 =>
       rw [compile] at hc
       · rw [Ref.eval]
-        exact hB ex self (e0 :: es0) (by simp) he isFn c gs r hc hfn hex ps hkn hps m₁ s₁ rs₁ env vid D m s rs cenv pre post
-          hact hna hrel hgen hlo hseg
+        exact hB ex self (e0 :: es0) (by simp) he isFn c gs r hc hfn hex ps rest hkn hps m₁ s₁ rs₁ env vid D m s rs cenv pre post
+          hact hna hva hrel hgen hlo hseg
       · intro hh; cases hh
   | cond arms d =>
     rw [Fz] at he
@@ -965,8 +1041,8 @@ theorem tclaimE_succ {n : Nat} (hFE1 : FClaimE (n + 1)) (hXE1 : XClaimE (n + 1))
     have hex1 : ex = true → gs1.loopstack = [] := fun h => by rw [totd.1.loopstack]; exact hex h
     have tota := compileArms_tot_Fz he.1 hfn hex1 has
     rw [Ref.eval]
-    exact hC ex self arms d he.1 he.2 isFn c gs1 (as, gs2) gs (rd, gs1) has hd hfn hex1 hex ps (hkn.keep totd.1 rfl rfl) hkn hps
-      m₁ s₁ rs₁ env vid D m s rs cenv pre post hact hna hrel (hgen.rest totd.1) (hgen.first tota.1)
+    exact hC ex self arms d he.1 he.2 isFn c gs1 (as, gs2) gs (rd, gs1) has hd hfn hex1 hex ps rest (hkn.keep totd.1 rfl rfl) hkn hps
+      m₁ s₁ rs₁ env vid D m s rs cenv pre post hact hna hva hrel (hgen.rest totd.1) (hgen.first tota.1)
       (hlo.mono totd.2.1 (Nat.le_refl _)) (hlo.mono (Nat.le_refl _) tota.2.1) (Nat.le_refl _) hseg
   | newScope es =>
     rw [Fz] at he
@@ -979,8 +1055,8 @@ theorem tclaimE_succ {n : Nat} (hFE1 : FClaimE (n + 1)) (hXE1 : XClaimE (n + 1))
         obtain ⟨ra, gs1, ha, rfl⟩ := hc
         rw [Ref.eval]
         show SimT _ s₁ env D m s rs cenv (Ref.evalBegin n (e0 :: es0) rs.frames.length (Ref.newFrame rs cenv).2)
-        exact SimT.scoped hseg hrel (hN ex self (e0 :: es0) he.1 he.2 isFn _ _ gs (ra, gs1) ha hfn hex ps
-          (hkn.keep (KeepFns.refl _) rfl rfl) hps m₁ s₁ rs₁ env vid D m _ _ _ _ _ (hact.pushScope cenv) hna
+        exact SimT.scoped hseg hrel (hN ex self (e0 :: es0) he.1 he.2 isFn _ _ gs (ra, gs1) ha hfn hex ps rest
+          (hkn.keep (KeepFns.refl _) rfl rfl) hps m₁ s₁ rs₁ env vid D m _ _ _ _ _ (hact.pushScope cenv) hna hva
           hrel.pushScope (hgen.mono (FnsKeep.of_fns_eq rfl)) (hlo.app (lsOut_one .addScope _ _)) hseg.inner)
       · intro hh; cases hh
   | let_ seq bs body =>
@@ -1027,8 +1103,8 @@ theorem tclaimE_succ {n : Nat} (hFE1 : FClaimE (n + 1)) (hXE1 : XClaimE (n + 1))
           rw [h2] at hUb
           obtain ⟨s2, m2, r2, mv2, rel2, hm2, ext2, fr2⟩ := hUb
           simp only
-          have ihb := hB ex self body hbody hbl isFn _ gs1 (rb, gs2) hb hfn'' hex1 ps (hkn.keep hk1.1 rfl rfl) hps
-            m₁ s₁ rs₁ env vid D m2 s2 rs3 _ _ _ ((hact.pushScope cenv).moved mv2 fr2 hm2 ext2) hna rel2
+          have ihb := hB ex self body hbody hbl isFn _ gs1 (rb, gs2) hb hfn'' hex1 ps rest (hkn.keep hk1.1 rfl rfl) hps
+            m₁ s₁ rs₁ env vid D m2 s2 rs3 _ _ _ ((hact.pushScope cenv).moved mv2 fr2 hm2 ext2) hna hva rel2
             (((hgen.rest hk1.1).mono (s' := s.pushScope) (FnsKeep.of_fns_eq rfl)).frame fr2.toFrame)
             (((hlo.mono hl1.1 (Nat.le_refl _)).app (lsOut_one .addScope _ _)).app
               (LsOut.app (hl1.2.below (Nat.le_refl _))
@@ -1061,8 +1137,8 @@ theorem tclaimE_succ {n : Nat} (hFE1 : FClaimE (n + 1)) (hXE1 : XClaimE (n + 1))
       | ok u rs2 =>
         rw [h1] at hUl
         obtain ⟨s2, m2, r2, mv2, rel2, hm2, ext2, fr2⟩ := hUl
-        have ihb := hB ex self body hbody hbl isFn _ gs1 (rb, gs2) hb hfn'' hex1 ps (hkn.keep hk1.1 rfl rfl) hps
-          m₁ s₁ rs₁ env vid D m2 s2 rs2 _ _ _ ((hact.pushScope cenv).moved mv2 fr2 hm2 ext2) hna rel2
+        have ihb := hB ex self body hbody hbl isFn _ gs1 (rb, gs2) hb hfn'' hex1 ps rest (hkn.keep hk1.1 rfl rfl) hps
+          m₁ s₁ rs₁ env vid D m2 s2 rs2 _ _ _ ((hact.pushScope cenv).moved mv2 fr2 hm2 ext2) hna hva rel2
           (((hgen.rest hk1.1).mono (s' := s.pushScope) (FnsKeep.of_fns_eq rfl)).frame fr2.toFrame)
           (((hlo.mono hl1.1 (Nat.le_refl _)).app (lsOut_one .addScope _ _)).app (hl1.2.below (Nat.le_refl _)))
           (hseg1.moved mv2 (c₁ := ra.1) (c₂ := rb.1) (post' := [.removeScope] ++ post) (by simp) rfl)
@@ -1095,112 +1171,137 @@ theorem tclaims_zero : TClaimV 0 ∧ TClaimE 0 ∧ TClaimB 0 ∧ TClaimC 0 ∧ T
   refine ⟨?_, ?_, ?_, ?_, ?_⟩
   · intro self args hargs isFn c f i gs r hc hfn hlz m s rs env pre post hrel hseg
     rw [Ref.evalList]; trivial
-  · intro ex self e he isFn c gs r hc hfn hex ps hkn hps m₁ s₁ rs₁ env vid D m s rs cenv pre post hact hna hrel hgen hlo hseg
+  · intro ex self e he isFn c gs r hc hfn hex ps rest hkn hps m₁ s₁ rs₁ env vid D m s rs cenv pre post hact hna hva hrel hgen hlo hseg
     rw [Ref.eval]; trivial
-  · intro ex self es hne hes isFn c gs r hc hfn hex ps hkn hps m₁ s₁ rs₁ env vid D m s rs cenv pre post hact hna hrel hgen hlo
+  · intro ex self es hne hes isFn c gs r hc hfn hex ps rest hkn hps m₁ s₁ rs₁ env vid D m s rs cenv pre post hact hna hva hrel hgen hlo
       hseg
     rw [Ref.evalBegin]; trivial
-  · intro ex self arms d harms hd isFn c gs r gs0 rd hc hcd hfn hex hex0 ps hkn hkn0 hps m₁ s₁ rs₁ env vid D m s rs cenv pre post
-      hact hna hrel hgen hgend hlo hlod hdl hseg
+  · intro ex self arms d harms hd isFn c gs r gs0 rd hc hcd hfn hex hex0 ps rest hkn hkn0 hps m₁ s₁ rs₁ env vid D m s rs cenv pre post
+      hact hna hva hrel hgen hgend hlo hlod hdl hseg
     rw [Ref.evalCond]; trivial
-  · intro ex self es hne hes isFn c oldtail gs r hc hfn hex ps hkn hps m₁ s₁ rs₁ env vid D m s rs cenv pre post hact hna hrel
+  · intro ex self es hne hes isFn c oldtail gs r hc hfn hex ps rest hkn hps m₁ s₁ rs₁ env vid D m s rs cenv pre post hact hna hva hrel
       hgen hlo hseg
     rw [Ref.evalBegin]; trivial
 
 /-! ## Applying a closure object (`FClaimU`): the body is in tail position -/
 
+theorem vOk_mkList {m : Nat → Nat} {s : St} {rs : Ref.St} : ∀ (xs : List Val), (∀ w ∈ xs, VOk m s rs w) → VOk m s rs (mkList xs)
+  | [], _ => vOk_lit .nil (fun _ _ _ => rfl)
+  | x :: xs, h => valIn_pair (h x (List.mem_cons_self ..)) (vOk_mkList xs (fun w hw => h w (List.mem_cons_of_mem _ hw)))
+
 theorem fclaimU_succ {n : Nat} (hB : TClaimB n) : FClaimU (n + 1) := by
-  intro m s₁ rs₁ env vid vs D hrel hg hd hvs hlen
+  intro m s₁ rs₁ env vid c' vs₀ D hrel hg hcc hd₀ hvs₀ har
   obtain ⟨c, hc1, hrest, hnd, hokp, hbody, hparams, hnargs, hvar, huser, hel, _,
     t, b, tl, isFn, cb, gs0, gs1, self, hcode, htlt, htclo, hcomp, hsc0, hfname, ⟨ex, hff, hexg⟩, hgen, hkn⟩ := hg.clo
-  have hvl : vs.length = c.ps.length := by rw [hlen, hnargs]
+  have hcc' : c' = c := by rw [hcc] at hc1; injection hc1
+  subst hcc'
+  have hokF := okParam_all hokp hrest
   -- the reference side
   rw [Ref.applyFn]
-  simp only [hc1, Ref.bindParams, hrest, List.length_map, hvl, if_true]
+  simp only [hc1, ref_bindParams_eq c'.ps c'.rest (vs₀.map (trf m)) (by rw [List.length_map]; exact har), bvals_map]
+  -- the formals and the values bound to them
+  have hvl0 : (bvals c'.rest c'.ps.length vs₀).length = (c'.ps ++ c'.rest.toList).length := by
+    rw [bvals_length har, List.length_append]
+  have hvsb : ∀ v ∈ bvals c'.rest c'.ps.length vs₀, VOk m s₁ rs₁ v := by
+    intro v hv
+    cases hr : c'.rest with
+    | none => rw [hr] at hv; exact hvs₀ v hv
+    | some r =>
+      rw [hr] at hv
+      simp only [bvals, List.mem_append, List.mem_singleton] at hv
+      rcases hv with hv | hv
+      · exact hvs₀ v (List.mem_of_mem_take hv)
+      · subst hv
+        exact vOk_mkList _ (fun w hw => hvs₀ w (List.mem_of_mem_drop hw))
+  have hdE : (enteredA s₁ vid c'.rest c'.ps.length vs₀ D).data = (bvals c'.rest c'.ps.length vs₀).reverse.map some ++ D := rfl
+  generalize hbv : bvals c'.rest c'.ps.length vs₀ = vs at hvl0 hvsb hdE
+  generalize hFe : c'.ps ++ c'.rest.toList = F at hvl0 hnd hparams hcode hokF
+  have hvl : vs.length = F.length := hvl0
+  have hvs := hvsb
   -- the reference state at the start of the body
-  have hnf : (Ref.newFrame rs₁ c.env) = (rs₁.frames.length, { rs₁ with frames := rs₁.frames ++ [{ parent := some c.env }] }) := rfl
-  have hfold := foldl_setVar rs₁.frames.length (c.ps.zip (vs.map (trf m)))
-    { rs₁ with frames := rs₁.frames ++ [{ parent := some c.env }] } { parent := some c.env }
+  have hnf : (Ref.newFrame rs₁ c'.env) = (rs₁.frames.length, { rs₁ with frames := rs₁.frames ++ [{ parent := some c'.env }] }) := rfl
+  have hfold := foldl_setVar rs₁.frames.length (F.zip (vs.map (trf m)))
+    { rs₁ with frames := rs₁.frames ++ [{ parent := some c'.env }] } { parent := some c'.env }
     (by show (rs₁.frames ++ [_])[rs₁.frames.length]? = _; simp)
-  generalize hrsB : (c.ps.zip (vs.map (trf m))).foldl (fun s (p : String × Val) => Ref.setVar s rs₁.frames.length p.1 p.2)
-    { rs₁ with frames := rs₁.frames ++ [{ parent := some c.env }] } = rsB at hfold
-  have hfrB : rsB.frames = rs₁.frames ++ [({ vars := bindsVars [] (c.ps.zip (vs.map (trf m))), parent := some c.env } : Ref.Frame)] := by
+  generalize hrsB : (F.zip (vs.map (trf m))).foldl (fun s (p : String × Val) => Ref.setVar s rs₁.frames.length p.1 p.2)
+    { rs₁ with frames := rs₁.frames ++ [{ parent := some c'.env }] } = rsB at hfold
+  have hfrB : rsB.frames = rs₁.frames ++ [({ vars := bindsVars [] (F.zip (vs.map (trf m))), parent := some c'.env } : Ref.Frame)] := by
     rw [hfold]; show (rs₁.frames ++ [_]).set rs₁.frames.length _ = _
     simp
   have hclB : rsB.clos = rs₁.clos := by rw [hfold]
   have hhpB : rsB.heap = rs₁.heap := by rw [hfold]
   have htrB : rsB.trace = rs₁.trace := by rw [hfold]
-  show (match (match Ref.evalBegin n c.body rs₁.frames.length
-        ((c.ps.zip (vs.map (trf m))).foldl (fun s (p : String × Val) => Ref.setVar s rs₁.frames.length p.1 p.2)
-          { rs₁ with frames := rs₁.frames ++ [{ parent := some c.env }] }) with
+  show (match (match Ref.evalBegin n c'.body rs₁.frames.length
+        ((F.zip (vs.map (trf m))).foldl (fun s (p : String × Val) => Ref.setVar s rs₁.frames.length p.1 p.2)
+          { rs₁ with frames := rs₁.frames ++ [{ parent := some c'.env }] }) with
       | .ok v s => Ref.R.ok v s | .brk _ s => .err s | .cont _ s => .err s | r => r) with
     | .ok v' rs' => _ | .err rs' => _ | .timeout => _ | .brk _ _ => _ | .cont _ _ => _)
   rw [hrsB]
   -- the machine: function scope, parameters
   have hcur1 := hrel.ctx
   obtain ⟨b0, hch, hfc⟩ := hcur1
-  have a2 : At (entered s₁ vid) [] (.addFuncScope t)
-      ((c.ps.map Instr.popStackPutEnv).reverse ++ b ++ [.removeScope, .ret]) :=
+  have a2 : At ((enteredA s₁ vid c'.rest c'.ps.length vs₀ D)) [] (.addFuncScope t)
+      ((F.map Instr.popStackPutEnv).reverse ++ b ++ [.removeScope, .ret]) :=
     ⟨huser, by show (fnOf s₁ vid).code = _; rw [hcode]; simp [fnCode], rfl⟩
-  have r2 : ReachX (entered s₁ vid) ((entered s₁ vid).pushFnScope t) :=
+  have r2 : ReachX ((enteredA s₁ vid c'.rest c'.ps.length vs₀ D)) (((enteredA s₁ vid c'.rest c'.ps.length vs₀ D)).pushFnScope t) :=
     (Reach.step a2 (fun f => exec_addFuncScope f t _)).toX
-  generalize hs3 : (entered s₁ vid).pushFnScope t = s₃ at r2
-  have hzl : (c.ps.zip vs).map (·.1) = c.ps := List.map_fst_zip (by omega)
-  have hzr : (c.ps.zip vs).map (·.2) = vs := List.map_snd_zip (by omega)
-  have hpairs1 : ((c.ps.zip vs).reverse).map (fun p => Instr.popStackPutEnv p.1) = (c.ps.map Instr.popStackPutEnv).reverse := by
+  generalize hs3 : ((enteredA s₁ vid c'.rest c'.ps.length vs₀ D)).pushFnScope t = s₃ at r2
+  have hzl : (F.zip vs).map (·.1) = F := List.map_fst_zip (by omega)
+  have hzr : (F.zip vs).map (·.2) = vs := List.map_snd_zip (by omega)
+  have hpairs1 : ((F.zip vs).reverse).map (fun p => Instr.popStackPutEnv p.1) = (F.map Instr.popStackPutEnv).reverse := by
     have := congrArg (List.map Instr.popStackPutEnv) hzl
     rw [List.map_map] at this
     rw [List.map_reverse]; exact congrArg List.reverse this
-  have hpairs2 : ((c.ps.zip vs).reverse).map (fun p => some p.2) = vs.reverse.map some := by
+  have hpairs2 : ((F.zip vs).reverse).map (fun p => some p.2) = vs.reverse.map some := by
     have := congrArg (List.map (some : Val → Option Val)) hzr
     rw [List.map_map] at this
     rw [List.map_reverse, List.map_reverse]; exact congrArg List.reverse this
   have hsc3 : s₃.scopes = s₁.scopes ++ [({ isFunction := true, myFunction := some t } : Scope)] := by subst hs3; rfl
   have hscope3 : scopeOf s₃ s₁.scopes.length = { isFunction := true, myFunction := some t } := by
     unfold scopeOf; rw [hsc3]; simp [List.getD_eq_getElem?_getD]
-  have r4 := reach_params (c.ps.zip vs).reverse s₃ [.addFuncScope t] (b ++ [.removeScope, .ret]) D s₁.scopes.length s₁.linear
+  have r4 := reach_params (F.zip vs).reverse s₃ [.addFuncScope t] (b ++ [.removeScope, .ret]) D s₁.scopes.length s₁.linear
     (by subst hs3; exact huser)
     (by subst hs3; show (fnOf s₁ vid).code = _; rw [hcode, hpairs1]; simp [fnCode])
-    (by subst hs3; rfl) (by subst hs3; show s₁.data = _; rw [hd, hpairs2]) (by subst hs3; rfl)
+    (by subst hs3; rfl) (by subst hs3; rw [hpairs2]; exact hdE) (by subst hs3; rfl)
     (by rw [hsc3]; simp) (fun x _ => by rw [hscope3]; rfl)
     (by rw [List.map_reverse, hzl]; exact nodup_reverse' hnd)
-  generalize hs4 : afterParams s₃ s₁.scopes.length (c.ps.zip vs).reverse D = s₄ at r4
-  have hsc4 : s₄.scopes = s₁.scopes ++ [({ vars := bindsVars [] (c.ps.zip vs).reverse, isFunction := true, myFunction := some t } : Scope)] := by
+  generalize hs4 : afterParams s₃ s₁.scopes.length (F.zip vs).reverse D = s₄ at r4
+  have hsc4 : s₄.scopes = s₁.scopes ++ [({ vars := bindsVars [] (F.zip vs).reverse, isFunction := true, myFunction := some t } : Scope)] := by
     subst hs4; unfold afterParams
     show s₃.scopes.set s₁.scopes.length _ = _
     rw [hscope3, hsc3]; simp
   have hlin4 : s₄.linear = some s₁.scopes.length :: s₁.linear := by subst hs4; subst hs3; rfl
   have hfns4 : s₄.fns = s₁.fns := by subst hs4; subst hs3; rfl
   have hcur4 : s₄.curfunc = vid := by subst hs4; subst hs3; rfl
-  have hpc4 : s₄.pc = ((1 + c.ps.length : Nat) : Int) := by
-    subst hs4; subst hs3; show (0 : Int) + 1 + ((c.ps.zip vs).reverse.length : Nat) = _
+  have hpc4 : s₄.pc = ((1 + F.length : Nat) : Int) := by
+    subst hs4; subst hs3; show (0 : Int) + 1 + ((F.zip vs).reverse.length : Nat) = _
     simp [hvl] <;> omega
   have hd4 : s₄.data = D := by subst hs4; rfl
   have haddr4 : s₄.addr = some (s₁.curfunc, s₁.pc + 1) :: s₁.addr := by subst hs4; subst hs3; rfl
   have hsusp4 : s₄.suspended = s₁.suspended := by subst hs4; subst hs3; rfl
   have hloops4 : s₄.loops = s₁.loops := by subst hs4; subst hs3; rfl
   -- the relation at the start of the body
-  have hndz : ((c.ps.zip vs).map (·.1)).Nodup := by rw [hzl]; exact hnd
-  have hndz' : ((c.ps.zip (vs.map (trf m))).map (·.1)).Nodup := by
+  have hndz : ((F.zip vs).map (·.1)).Nodup := by rw [hzl]; exact hnd
+  have hndz' : ((F.zip (vs.map (trf m))).map (·.1)).Nodup := by
     rw [List.map_fst_zip (by simp; omega)]; exact hnd
   have relB : RelF m s₄ rsB rs₁.frames.length := by
     refine hrel.enter hg (fun c' hc' => by rw [hc1] at hc'; injection hc' with hc'; rw [hc']) s₄ rsB t _ _ hsc4 hlin4 hfns4 hcur4 (by subst hs4; subst hs3; rfl) (by subst hs4; subst hs3; rfl)
       hfrB hclB hhpB htrB htclo (fun y => ?_) (fun y v hv => ?_) (fun h hh => ?_) hloops4
     · rw [lookup_bindsVars, lookup_bindsVars, List.reverse_reverse, lookup_reverse_of_nodup _ hndz', lookup_zip_map]
-      cases (c.ps.zip vs).lookup y <;> rfl
+      cases (F.zip vs).lookup y <;> rfl
     · rw [lookup_bindsVars, List.reverse_reverse] at hv
-      cases hz : (c.ps.zip vs).lookup y with
+      cases hz : (F.zip vs).lookup y with
       | none => rw [hz] at hv; cases hv
       | some w => rw [hz] at hv; injection hv with hv; subst hv; exact hvs w (lookup_zip_mem hz).2
     · rw [lookup_bindsVars, lookup_reverse_of_nodup _ hndz', lookup_zip_none]
       · rfl
       · intro hm
-        have := okName_binder (okParam_name (hokp h hm))
+        have := okName_binder (okParam_name (hokF h hm))
         unfold okBinder at this
         simp only [Bool.not_eq_true', List.contains_eq_mem, decide_eq_false_iff_not] at this
         exact this hh
   -- the body
-  have hseg4 : Seg s₄ ([.addFuncScope t] ++ (c.ps.map Instr.popStackPutEnv).reverse) b [.removeScope, .ret] :=
+  have hseg4 : Seg s₄ ([.addFuncScope t] ++ (F.map Instr.popStackPutEnv).reverse) b [.removeScope, .ret] :=
     ⟨by rw [hcur4]; unfold fnOf; rw [hfns4]; exact huser, by rw [hcur4]; show (fnOf s₄ vid).code = _; unfold fnOf; rw [hfns4]; exact hcode.trans (by simp [fnCode]),
       by rw [hpc4]; simp; omega⟩
   have hfl14 : ∀ i, i < s₁.scopes.length → isFnScope s₄ i = isFnScope s₁ i := fun i hi => by
@@ -1212,12 +1313,12 @@ theorem fclaimU_succ {n : Nat} (hB : TClaimB n) : FClaimU (n + 1) := by
     ⟨hrel, hg, hcur4, haddr4, hsusp4, hd4, ⟨[], by rw [hlin4]; rfl, by rw [hsc0]; rfl⟩, by rw [hfns4]; exact Nat.le_refl _,
       fun id _ => by unfold fnOf; rw [hfns4], by rw [hloops4]; exact Nat.le_refl _, fun id _ => by rw [hloops4], hscl14, hfl14,
       MExt.refl _ _, ⟨hext1B, fun i c' hc' => by rw [hclB]; exact hc'⟩⟩
-  have hlo4 : LsOut ([.addFuncScope t] ++ (c.ps.map Instr.popStackPutEnv).reverse) gs0.loops.length gs1.loops.length :=
+  have hlo4 : LsOut ([.addFuncScope t] ++ (F.map Instr.popStackPutEnv).reverse) gs0.loops.length gs1.loops.length :=
     fun l hl => by simp at hl
-  have hsim := hB ex self c.body hbody hff isFn cb gs0 ((b, tl), gs1) hcomp hfname hexg c.ps hkn hokp m s₁ rs₁ env vid D m s₄ rsB
-    rs₁.frames.length _ _ hact hnargs relB (hgen.mono (FnsKeep.of_fns_eq hfns4 (LoopsExt.of_eq hloops4))) hlo4 hseg4
-  have hreach4 : ReachX (entered s₁ vid) s₄ := r2.trans r4
-  cases hres : Ref.evalBegin n c.body rs₁.frames.length rsB with
+  have hsim := hB ex self c'.body hbody hff isFn cb gs0 ((b, tl), gs1) hcomp hfname hexg c'.ps c'.rest hkn (hFe ▸ hokF) m s₁ rs₁ env vid D m s₄ rsB
+    rs₁.frames.length _ _ hact hnargs hvar relB (hgen.mono (FnsKeep.of_fns_eq hfns4 (LoopsExt.of_eq hloops4))) hlo4 hseg4
+  have hreach4 : ReachX ((enteredA s₁ vid c'.rest c'.ps.length vs₀ D)) s₄ := r2.trans r4
+  cases hres : Ref.evalBegin n c'.body rs₁.frames.length rsB with
   | ok v' rs' =>
     rw [hres] at hsim
     simp only
@@ -1228,15 +1329,15 @@ theorem fclaimU_succ {n : Nat} (hB : TClaimB n) : FClaimU (n + 1) := by
         ⟨hext1B.trans ext.1, fun i c hc => ext.2 i c (by rw [hclB]; exact hc)⟩, fr, hcl⟩
     obtain ⟨s₅, m₅, v, r5, l5, hv5, rel5, hm5, ext5, fr5, hcl5⟩ := hsim
     -- removeScope, ret
-    have hcode5 : (fnOf s₅ s₅.curfunc).code = fnCode t c.ps b := by rw [l5.fn, hcur4]; unfold fnOf; rw [hfns4]; exact hcode
+    have hcode5 : (fnOf s₅ s₅.curfunc).code = fnCode t F b := by rw [l5.fn, hcur4]; unfold fnOf; rw [hfns4]; exact hcode
     have huser5 : (fnOf s₅ s₅.curfunc).user = false := by rw [l5.fn, hcur4]; unfold fnOf; rw [hfns4]; exact huser
-    have a5 : At s₅ ([.addFuncScope t] ++ (c.ps.map Instr.popStackPutEnv).reverse ++ b) .removeScope [.ret] :=
+    have a5 : At s₅ ([.addFuncScope t] ++ (F.map Instr.popStackPutEnv).reverse ++ b) .removeScope [.ret] :=
       ⟨huser5, by rw [hcode5]; simp [fnCode], by rw [l5.pc, hpc4]; simp; omega⟩
     have hlin5 : s₅.linear = some s₁.scopes.length :: s₁.linear := by rw [fr5.linear, hlin4]
     have r6 : ReachX s₅ { s₅ with pc := s₅.pc + 1, linear := s₁.linear } :=
       (Reach.step a5 (fun f => by rw [exec_removeScope, hlin5])).toX
     have a6 : At ({ s₅ with pc := s₅.pc + 1, linear := s₁.linear } : St)
-        ([.addFuncScope t] ++ (c.ps.map Instr.popStackPutEnv).reverse ++ b ++ [.removeScope]) .ret [] :=
+        ([.addFuncScope t] ++ (F.map Instr.popStackPutEnv).reverse ++ b ++ [.removeScope]) .ret [] :=
       ⟨huser5, by show (fnOf s₅ s₅.curfunc).code = _; rw [hcode5]; simp [fnCode],
         by show s₅.pc + 1 = _; rw [l5.pc, hpc4]; simp; omega⟩
     have haddr5 : s₅.addr = some (s₁.curfunc, s₁.pc + 1) :: s₁.addr := by rw [fr5.addr, haddr4]
